@@ -1,10 +1,10 @@
 #!/bin/bash
 # verify every delivered round-4 seed that has no log yet (3 at a time)
 cd /verif
-for d in /tmp/seed4/C*-out/m[12]; do
+for d in ${SEED_ROOT:-/tmp/seed4}/C*-out/m[12]; do
   id=$(basename $(dirname $d) | sed 's/-out//'); k=$(basename $d | sed 's/m//')
   [ -f $d/patch.diff ] && [ -f $d/meta.json ] || continue
-  [ -f .work-r4-$id-$k.log ] && continue
-  echo "queued" > .work-r4-$id-$k.log
+  [ -f .work-${SEED_ROUND:-r4}-$id-$k.log ] && continue
+  echo "queued" > .work-${SEED_ROUND:-r4}-$id-$k.log
   echo "$id $k"
-done | xargs -P 3 -L 1 sh -c './tools_seed_r4.sh $0 $1 > .work-r4-$0-$1.log 2>&1'
+done | xargs -P 3 -L 1 sh -c './tools_seed_r4.sh $0 $1 > .work-${SEED_ROUND:-r4}-$0-$1.log 2>&1'
